@@ -219,8 +219,8 @@ theorem C02_update_keeps_index (idx : Index) (rows : List Row) (i : Nat) (old ne
     simp only [Idx.uPatch, hk, if_false] at hp
     apply UOk_congr _ _ _ _ _ hp
     intro k
-    rw [uGet_abs_insert _ _ _ (sorted_remove _ _ _ hs), Idx.uGet_add, Idx.uGet_add,
-      uGet_abs_remove _ _ _ hs]
+    rw [uGet_abs_insert _ _ _ (sorted_remove _ _ _ hs), Idx.uGet_add, Idx.uGet_add]
+    simp only [uGet_abs_remove _ _ _ hs]
     rfl
 
 /-- maintenance = rebuild: an index maintained through any history of inserts and updates files,
@@ -242,13 +242,8 @@ theorem C02_multi_check_eq_predicate (t : KTy) (x : Value) (lo hi : Option Value
     (hx : x.hasTy t = true)
     (hlo : ∀ l, lo = some l → l.hasTy t = true ∧ l.isNull = false)
     (hhi : ∀ h, hi = some h → h.hasTy t = true ∧ h.isNull = false) :
-    ((match lo with
-        | none => !(x == .null)
-        | some l => if incLo then vcmp x l != .lt else vcmp x l == .gt) &&
-      (match hi with
-        | none => true
-        | some h => if incHi then vcmp x h != .gt else vcmp x h == .lt))
-      = inRangeSql x ⟨lo, hi, incLo, incHi⟩ := by
+    multiCheck x lo hi incLo incHi = inRangeSql x ⟨lo, hi, incLo, incHi⟩ := by
+  unfold multiCheck
   by_cases nx : x.isNull = true
   · have hxn : x = .null := by cases x <;> simp_all [Value.isNull]
     subst hxn
@@ -312,6 +307,115 @@ theorem C02_multi_walk_is_filter (t : KTy) (idx : Index) (lo hi : Option Value) 
     rw [← C02_multi_check_eq_predicate t x lo hi incLo incHi hx hlo hhi] at hr
     exact hr
 
+
+/-! ### the equal-bounds (prefix) branch -/
+
+theorem takeWhile_eq_filter {α : Type} (P : α → Bool) (l : List α)
+    (h : l.Pairwise (fun a b => P b = true → P a = true)) : l.takeWhile P = l.filter P := by
+  induction l with
+  | nil => rfl
+  | cons a l ih =>
+    rw [List.pairwise_cons] at h
+    by_cases hp : P a = true
+    · rw [List.takeWhile_cons_of_pos hp, List.filter_cons_of_pos hp, ih h.2]
+    · rw [List.takeWhile_cons_of_neg hp, List.filter_cons_of_neg hp]
+      symm
+      rw [List.filter_eq_nil_iff]
+      intro b hb hpb
+      exact hp (h.1 b hb hpb)
+
+theorem filter_dropWhile {α : Type} (P Q : α → Bool) (l : List α)
+    (h : ∀ e ∈ l, Q e = true → P e = false) : (l.dropWhile Q).filter P = l.filter P := by
+  induction l with
+  | nil => rfl
+  | cons a l ih =>
+    by_cases hq : Q a = true
+    · have hp : ¬ P a = true := by rw [h a List.mem_cons_self hq]; simp
+      rw [List.dropWhile_cons_of_pos hq, List.filter_cons_of_neg hp]
+      exact ih (fun e he => h e (List.mem_cons_of_mem _ he))
+    · rw [List.dropWhile_cons_of_neg hq]
+
+theorem firstIs_ge (v : Value) (k : Key) (h : firstIs v k = true) : kcmp k [v] ≠ .lt := by
+  cases k with
+  | nil => simp [firstIs] at h
+  | cons x xs =>
+    have hx : x = v := by simpa [firstIs] using h
+    subst hx
+    rw [kcmp_cons, (vcmp_eq_iff x x).mpr rfl]
+    cases xs <;> simp [kcmp]
+
+theorem firstIs_of_between (v : Value) (a b : Key) (ha : kcmp a [v] ≠ .lt) (hab : kcmp a b = .lt)
+    (hb : firstIs v b = true) : firstIs v a = true := by
+  cases a with
+  | nil => simp [kcmp] at ha
+  | cons x xs =>
+    cases b with
+    | nil => simp [firstIs] at hb
+    | cons y ys =>
+      have hy : y = v := by simpa [firstIs] using hb
+      subst hy
+      rw [kcmp_cons] at ha hab
+      cases hxy : vcmp x y
+      · simp [hxy] at ha
+      · have := (vcmp_eq_iff x y).mp hxy
+        simp [firstIs, this]
+      · simp [hxy] at hab
+
+def ltKey (v : Value) : Key × List Nat → Bool := fun kp => kcmp kp.1 [v] == .lt
+def firstKey (v : Value) : Key × List Nat → Bool := fun kp => firstIs v kp.1
+
+theorem prefixMatch_eq (idx : Index) (v : Value) :
+    prefixMatch idx v = positions ((idx.dropWhile (ltKey v)).takeWhile (firstKey v)) := rfl
+
+/-- everything that survives the `dropWhile (< [v])` of a sorted index is `≥ [v]` -/
+theorem dropWhile_ge (idx : Index) (v : Value) (hs : Sorted idx) :
+    ∀ e ∈ idx.dropWhile (ltKey v), kcmp e.1 [v] ≠ .lt := by
+  induction idx with
+  | nil => intro e he; simp at he
+  | cons a l ih =>
+    by_cases hq : ltKey v a = true
+    · rw [List.dropWhile_cons_of_pos hq]
+      exact ih (sorted_tail hs)
+    · rw [List.dropWhile_cons_of_neg hq]
+      intro e he
+      have ha : kcmp a.1 [v] ≠ .lt := by simpa [ltKey] using hq
+      rcases List.mem_cons.mp he with h | h
+      · rw [h]; exact ha
+      · intro hlt
+        exact ha (kcmp_lt_trans _ _ _ (sorted_head hs e h) hlt)
+
+theorem sorted_dropWhile (idx : Index) (Q : Key × List Nat → Bool) (hs : Sorted idx) :
+    Sorted (idx.dropWhile Q) := by
+  unfold Sorted at *
+  exact hs.sublist ((List.dropWhile_sublist Q).map _)
+
+/-- equal inclusive bounds: the walk from `[v]` while the first column equals `v` returns exactly
+the positions filed under the keys whose first column is `v` (single- and multi-column indexes) -/
+theorem C02_prefix_match_is_filter (idx : Index) (v : Value) (hs : Sorted idx) (p : Nat) :
+    p ∈ prefixMatch idx v ↔ ∃ kp ∈ idx, firstIs v kp.1 = true ∧ p ∈ kp.2 := by
+  rw [prefixMatch_eq, mem_positions]
+  have hd := dropWhile_ge idx v hs
+  have hsd := sorted_dropWhile idx (ltKey v) hs
+  have hpw : (idx.dropWhile (ltKey v)).Pairwise
+      (fun a b => firstKey v b = true → firstKey v a = true) := by
+    unfold Sorted at hsd
+    rw [List.pairwise_map] at hsd
+    exact (List.Pairwise.and_mem.mp hsd).imp (fun {a b} hab hb =>
+      firstIs_of_between v a.1 b.1 (hd a hab.1) hab.2.2 hb)
+  rw [takeWhile_eq_filter (firstKey v) _ hpw,
+    filter_dropWhile (firstKey v) (ltKey v) idx
+      (by
+        intro e _ hq
+        cases hf : firstKey v e
+        · rfl
+        · exact absurd (by simpa [ltKey] using hq) (firstIs_ge v e.1 hf))]
+  constructor
+  · rintro ⟨kp, hmem, hp⟩
+    rw [List.mem_filter] at hmem
+    exact ⟨kp, hmem.1, hmem.2, hp⟩
+  · rintro ⟨kp, hin, hf, hp⟩
+    exact ⟨kp, List.mem_filter.mpr ⟨hin, hf⟩, hp⟩
+
 /-! ### T4: index order versus ORDER BY order -/
 
 /-- on NULL-free keys of one type the index order is the ascending sort order -/
@@ -365,5 +469,111 @@ theorem C02_simple_range_exact (c : Nat) (op : BinOp) (v x : Value) (row : Row) 
       | (rename_i a b; cases h : compare b a <;> simp_all; done)
       | (rename_i a b; cases h : compare b.toNat a.toNat <;> simp_all; done)
       | (rename_i a b; cases h : compare a.toNat b.toNat <;> simp_all; done))
+
+
+/-! ### T2 for BETWEEN and for `col op₁ lit₁ AND col op₂ lit₂` -/
+
+def isCmpOp : BinOp → Bool
+  | .eq | .ne | .lt | .le | .gt | .ge => true
+  | _ => false
+
+/-- a comparison of two non-NULL values is decided by `Value.cmp?` (type mismatch = error) -/
+theorem evalBin_cmp (op : BinOp) (a b : Value) (hop : isCmpOp op = true)
+    (na : a.isNull = false) (nb : b.isNull = false) :
+    evalBin op a b = (match Value.cmp? a b with
+      | some o => .ok (.bool (cmpOp op o))
+      | none => .error .typeMismatch) := by
+  cases op <;> simp [isCmpOp] at hop <;> cases a <;> cases b <;>
+    simp_all [evalBin, Value.isNull, Value.cmp?]
+
+theorem evalBin_cmp_null_left (op : BinOp) (b : Value) (hop : isCmpOp op = true) :
+    evalBin op .null b = .ok .null := by
+  cases op <;> simp [isCmpOp] at hop <;> simp [evalBin]
+
+theorem cmpOp_ge (o : Ordering) : cmpOp .ge o = (match o with | .lt => false | _ => true) := by
+  cases o <;> rfl
+theorem cmpOp_le (o : Ordering) : cmpOp .le o = (match o with | .gt => false | _ => true) := by
+  cases o <;> rfl
+theorem cmpOp_gt (o : Ordering) : cmpOp .gt o = (match o with | .gt => true | _ => false) := by
+  cases o <;> rfl
+theorem cmpOp_lt (o : Ordering) : cmpOp .lt o = (match o with | .lt => true | _ => false) := by
+  cases o <;> rfl
+
+/-- no value lies between `l` and `h` when `l > h` -/
+theorem no_value_between (x l h : Value) (o1 o2 : Ordering)
+    (h1 : Value.cmp? x l = some o1) (h2 : Value.cmp? x h = some o2) (hlh : Value.cmp? l h = some .gt)
+    (hge : o1 ≠ .lt) (hle : o2 ≠ .gt) : False := by
+  have L := vcmp_laws
+  have v1 := vcmp_of_cmp _ _ _ h1
+  have v2 := vcmp_of_cmp _ _ _ h2
+  have v3 := vcmp_of_cmp _ _ _ hlh
+  have v1' : vcmp l x = o1.swap := by rw [L.swap (a := x) (b := l) trivial trivial, v1]
+  have v3' : vcmp h l = .lt := by rw [L.swap (a := l) (b := h) trivial trivial, v3]; rfl
+  -- h < l ≤ x ≤ h
+  cases o1 <;> cases o2 <;> simp at hge hle
+  · -- x = l, x < h : l < h, contradiction with h < l
+    have := L.eq_lt (a := l) (b := x) (c := h) trivial trivial trivial (by rw [v1']; rfl) v2
+    rw [v3] at this; cases this
+  · have := L.eq_eq (a := l) (b := x) (c := h) trivial trivial trivial (by rw [v1']; rfl) v2
+    rw [v3] at this; cases this
+  · have := L.lt_lt (a := l) (b := x) (c := h) trivial trivial trivial (by rw [v1']; rfl) v2
+    rw [v3] at this; cases this
+  · have := L.lt_eq (a := l) (b := x) (c := h) trivial trivial trivial (by rw [v1']; rfl) v2
+    rw [v3] at this; cases this
+
+/-- T2 for `col BETWEEN l AND h`: the extracted closed range is TRUE on exactly the rows on which
+the WHERE predicate is TRUE (an evaluation error is not TRUE) -/
+theorem C02_between_exact (c : Nat) (l h x : Value) (row : Row) (r : Range)
+    (hrow : row[c]? = some x)
+    (hext : extractRange c (.between (.col c) (.lit l) (.lit h) false) = some r) :
+    inRangeSql x r = true ↔ (Expr.between (.col c) (.lit l) (.lit h) false).tv row = .ok .t := by
+  have nl : l.isNull = false := by
+    cases l <;> simp_all [extractRange, isCol, litOf, Value.isNull]
+  have nh : h.isNull = false := by
+    cases l <;> cases h <;> simp_all [extractRange, isCol, litOf, Value.isNull]
+  have hr : r = ⟨some l, some h, true, true⟩ := by
+    cases l <;> cases h <;> simp_all [extractRange, isCol, litOf, Value.isNull]
+  subst hr
+  simp only [Expr.tv, Expr.eval, hrow, betweenV, bind, Except.bind]
+  rw [evalBin_cmp .gt l h rfl nl nh]
+  by_cases nx : x.isNull = true
+  · have hxn : x = .null := by cases x <;> simp_all [Value.isNull]
+    subst hxn
+    cases hlh : Value.cmp? l h with
+    | none => simp (config := { decide := true }) [inRangeSql, Value.isNull]
+    | some o =>
+      cases o <;>
+        simp (config := { decide := true }) [inRangeSql, Value.isNull, cmpOp_ge, cmpOp_le, cmpOp_gt, evalBin_cmp_null_left, evalBin, Value.toTV, TV.and3,
+          Value.ofTV, Value.truthy, pure, Except.pure, bind, Except.bind]
+  · have nx' : x.isNull = false := by simpa using nx
+    rw [evalBin_cmp .ge x l rfl nx' nl, evalBin_cmp .le x h rfl nx' nh]
+    cases hlh : Value.cmp? l h with
+    | none =>
+      -- l and h of different types: x cannot be comparable with both
+      have : Value.cmp? x l = none ∨ Value.cmp? x h = none := by
+        cases x <;> cases l <;> cases h <;> simp_all [Value.cmp?]
+      rcases this with h1 | h1 <;> simp (config := { decide := true }) [inRangeSql, nx', h1]
+    | some o =>
+      cases h1 : Value.cmp? x l with
+      | none => cases o <;> simp (config := { decide := true }) [inRangeSql, nx', h1, cmpOp_ge, cmpOp_le, cmpOp_gt, nx, Value.truthy, TV.ofBool, pure, Except.pure]
+      | some o1 =>
+        cases h2 : Value.cmp? x h with
+        | none =>
+          cases o <;> cases o1 <;>
+            simp (config := { decide := true }) [inRangeSql, nx', h1, h2, cmpOp_ge, cmpOp_le, cmpOp_gt, nx, Value.truthy, TV.ofBool, pure, Except.pure,
+              evalBin, Value.toTV, bind, Except.bind]
+        | some o2 =>
+          cases o
+          · cases o1 <;> cases o2 <;>
+              simp (config := { decide := true }) [inRangeSql, nx', h1, h2, cmpOp_ge, cmpOp_le, cmpOp_gt, evalBin, Value.toTV, TV.and3, Value.ofTV,
+                Value.truthy, TV.ofBool, pure, Except.pure, bind, Except.bind]
+          · cases o1 <;> cases o2 <;>
+              simp (config := { decide := true }) [inRangeSql, nx', h1, h2, cmpOp_ge, cmpOp_le, cmpOp_gt, evalBin, Value.toTV, TV.and3, Value.ofTV,
+                Value.truthy, TV.ofBool, pure, Except.pure, bind, Except.bind]
+          · -- l > h: the engine answers FALSE; the range is empty
+            have hno := no_value_between x l h o1 o2 h1 h2 hlh
+            cases o1 <;> cases o2 <;>
+              simp (config := { decide := true }) [inRangeSql, nx', h1, h2, cmpOp_ge, cmpOp_le, cmpOp_gt, nx, Value.truthy, TV.ofBool, pure, Except.pure] <;>
+              exact hno (by decide) (by decide)
 
 end VibeProof.C02
